@@ -51,6 +51,9 @@ var c11Special = map[string][]string{
 	"inf-mid":   {"-2.5", "+Inf", "7", "-1"},
 	"inf-both":  {"-2.5", "+Inf", "-Inf", "-1"},
 	"neg-inf":   {"-2.5", "0.5", "-Inf", "-1"},
+	// large values that lie close together: a variance computed from sums of squares cancels catastrophically
+	"large-close": {"10000001", "10000002", "10000004", "10000003"},
+	"large-mixed": {"1e15", "1", "-1e15", "2"},
 }
 
 var c11Inner = map[string]*refmodel.Grouping{
@@ -167,6 +170,7 @@ func c11Build(in c11Input) ([]mockq.Rec, refmodel.Expr, bool) {
 			v := c11Values[i]
 			if in.Special != "" {
 				v = c11Special[in.Special][i]
+				n = 1 // the series' values are exactly the listed ones
 			}
 			labels = append(labels, mockq.KV{K: "v", V: v})
 		}
@@ -279,13 +283,20 @@ func c11Run(r *vkit.Run) {
 		if !r.Mine(idx) || r.Stop() {
 			continue
 		}
-		for _, sp := range []string{"nan-first", "nan-last", "inf-first", "inf-mid", "inf-both", "neg-inf"} {
+		for _, sp := range []string{"nan-first", "nan-last", "inf-first", "inf-mid", "inf-both", "neg-inf", "large-close", "large-mixed"} {
 			for _, t := range c11Tmpl {
 				op, _, _ := strings.Cut(t.name, " ")
 				switch op {
 				case "sum", "avg", "count":
+					if sp == "large-mixed" && op != "count" {
+						continue // the sum of 1e15, 1, -1e15, 2 depends on the order of addition
+					}
 				case "min", "max":
 					if strings.HasPrefix(sp, "nan") {
+						continue
+					}
+				case "stddev", "stdvar":
+					if sp != "large-close" {
 						continue
 					}
 				default:
@@ -319,7 +330,7 @@ func c11Run(r *vkit.Run) {
 			r.NonTrivial()
 		}
 	}
-	r.Note("bounds", fmt.Sprintf("input vectors: all non-empty subsets (size <=4) of 6 label sets over a in {1,2}, b in {x,y}, optional c, with pairwise distinct values (counts 1,2,3,5 or unwrapped -2.5,0.5,7,-1), plus vectors of 13, 20 and 33 series for sort/topk/bottomk, plus 6 value sets holding NaN / +Inf / -Inf for sum, avg, count (min, max for the infinities); %d query templates (7 operators x 9 groupings, topk/bottomk k in {1,2,5} x 5 groupings, sort/sort_desc, 20 nestings up to depth 3); instant and 3-step range; map-order deviation bound %d", len(c11Tmpl), bound))
+	r.Note("bounds", fmt.Sprintf("input vectors: all non-empty subsets (size <=4) of 6 label sets over a in {1,2}, b in {x,y}, optional c, with pairwise distinct values (counts 1,2,3,5 or unwrapped -2.5,0.5,7,-1), plus vectors of 13, 20 and 33 series for sort/topk/bottomk, plus 6 value sets holding NaN / +Inf / -Inf for sum, avg, count (min, max for the infinities) and large close values for stddev / stdvar; %d query templates (7 operators x 9 groupings, topk/bottomk k in {1,2,5} x 5 groupings, sort/sort_desc, 20 nestings up to depth 3); instant and 3-step range; map-order deviation bound %d", len(c11Tmpl), bound))
 }
 
 func c11Replay(r *vkit.Run, v vkit.Violation) *vkit.Violation {
